@@ -203,6 +203,10 @@ func (e *C03) one(ctx *core.Ctx, cnt []int, n, untargeted int, mu, mpsf intstr.I
 				Annotations: map[string]string{v1.MD5ExtendedDaemonSetAnnotationKey: h}}, Spec: corev1.PodSpec{NodeName: name}}
 			pod.Status.Phase = corev1.PodRunning
 			pod.Status.Conditions = []corev1.PodCondition{kit.ReadyCond(k == clsUpA || k == clsOldA, t0.Add(-time.Minute))}
+			if (k == clsUpU || k == clsOldU) && j%3 == 1 {
+				// not available either: Ready=Unknown (the node stopped reporting)
+				pod.Status.Conditions[0].Status = corev1.ConditionUnknown
+			}
 			if k == clsOldT {
 				d := metav1.NewTime(t0.Add(-5 * time.Second))
 				g := int64(30)
